@@ -19,6 +19,11 @@ def run(chk, repo, tier):
     chk.clause('C05-b', 'FFT path is orthonormal and transforms the field embedded in zeros (scratch region zeroed first)', 5)
     chk.clause('C05-c', 'intensity is never negative: |.|^2-derived values accumulated into zeros', 3)
     chk.clause('C05-d', 'normalize_power: c^2 * sum|array|^2 = power', 1)
+    chk.clause('C05-e', 'a masked output window is the bounding box of the mask placed with the floor(n/2) convention: the energy '
+                        'reported for a window is that of exactly its samples', 2)
+    from . import extent_rules as X
+    with chk.guard(['C05-e'], 'propagate._mask_shift'):
+        X.mask_window_identities(chk, repo, 'C05-e')
     chk.not_decided += ['Parseval to rounding on commensurate grids', 'monotonicity of captured energy in the window '
                         '(follows from C05-c and C02-e, not evaluated)']
     a = pair('alpha')
@@ -56,7 +61,7 @@ def run(chk, repo, tier):
 
     from .common import Remap
     from . import c09
-    c09.run(Remap(chk, {'C09-d': 'C05-b'}), repo, tier)
+    c09.run(Remap(chk, {'C09-d': 'C05-b', 'C09-e': 'C05-b', 'C09-h': 'C05-b'}), repo, tier)
 
     # ---------------------------------------------------------------- C05-c
     fi, paths, _ = analyse(repo, 'field.insert', config={'intensity': TRUE, 'weight': C(1)},
